@@ -78,6 +78,12 @@ func newPSWorld(r *prng.R, s *out.Sink, n, t, msgLen int) *psWorld {
 	}
 	d := newDkgRun("ps", parties, t, msgLen)
 	d.reorder = r.Intn(3) != 0
+	if d.reorder && n >= 2 {
+		// on one link the sender's key overtakes its commitment, by construction
+		a := r.Intn(n)
+		b := (a + 1 + r.Intn(n-1)) % n
+		d.overtake = [2]uint16{parties[a], parties[b]}
+	}
 	d.run(r.Fork(), parties, 30*time.Second)
 	w := &psWorld{n: n, t: t, msgLen: msgLen, parties: parties, shares: map[uint16][]byte{}}
 	desc := fmt.Sprintf("ps DKG n=%d t=%d msgLen=%d schedule %s", n, t, msgLen, d.describe())
@@ -620,6 +626,11 @@ func blsAltered(r *prng.R, s *out.Sink, tier string) {
 		}
 		d := newDkgRun("bls", parties, cf.t, 0)
 		d.reorder = r.Intn(3) != 0
+		if d.reorder {
+			a := r.Intn(cf.n)
+			b := (a + 1 + r.Intn(cf.n-1)) % cf.n
+			d.overtake = [2]uint16{parties[a], parties[b]}
+		}
 		d.run(r.Fork(), parties, 60*time.Second)
 		desc := fmt.Sprintf("bls n=%d t=%d", cf.n, cf.t)
 		if d.errs[1] != nil {
